@@ -374,8 +374,8 @@ def r4_use_syntax(ctx, rep):
 
 
 RULES = [
-    RuleSpec("C06.R1", r1_rename_map, "the rename map reaches every import", floor=8),
-    RuleSpec("C06.R2", r2_public_only, "only public things cross a module boundary", floor=14),
-    RuleSpec("C06.R3", r3_dependency_order, "modules are correlated in dependency order", floor=11),
-    RuleSpec("C06.R4", r4_use_syntax, "USE statement syntax", floor=15),
+    RuleSpec("C06.R1", r1_rename_map, "the rename map reaches every import", floor=4),
+    RuleSpec("C06.R2", r2_public_only, "only public things cross a module boundary", floor=7),
+    RuleSpec("C06.R3", r3_dependency_order, "modules are correlated in dependency order", floor=5),
+    RuleSpec("C06.R4", r4_use_syntax, "USE statement syntax", floor=9),
 ]
